@@ -5,7 +5,7 @@
 (* (set of failed clauses) is printed as one JSON line when non-empty.     *)
 (* Acceptance = every line of the trace file was consumed.                 *)
 (***************************************************************************)
-EXTENDS JudgeTx, JudgeSat, JudgeGraph, JudgeLint, JudgeApi, Json, IOUtils
+EXTENDS JudgeTx, JudgeSat, JudgeGraph, JudgeLint, JudgeApi, JudgeComp, Json, IOUtils
 
 Tr == ndJsonDeserialize(IOEnv.TRACE_FILE)
 
@@ -22,6 +22,10 @@ JudgeEvent(e) ==
     [] e.kind = "graph"        -> Judge_graph(e)
     [] e.kind = "lint"         -> Judge_lint(e)
     [] e.kind = "lint_output"  -> Judge_lint_output(e)
+    [] e.kind = "remove_unloaded" -> Judge_remove_unloaded(e)
+    [] e.kind = "add_subcircuit" -> Judge_add_subcircuit(e)
+    [] e.kind = "fill_blackbox" -> Judge_fill_blackbox(e)
+    [] e.kind = "strip_blackboxes" -> Judge_strip_blackboxes(e)
     [] e.kind = "api_history"  -> Judge_api_history(e)
     [] OTHER -> {"MACHINERY:unknown_kind"}
 
